@@ -36,6 +36,27 @@ CLAIMED = {
             "Model checking + trace validation against an oracle that is independent of calloop's bookkeeping (the kernel).", "4/C16", CORE_NOTE),
 }
 
+CONC_NOTE = ("Trusted: eventfd / epoll / std::sync::mpsc / async-task / polling::Poller::notify behave as their contracts say; "
+             "the step scheduler serialises real OS threads at the yield points compiled in with cfg(calloop_verif) (every eventfd "
+             "write/read, queue push/pop, flag swap) so interleavings *inside* one such step and weak-memory effects are out of reach. "
+             "TLC is exhaustive for the scripts of spec/mc/*.cfg; replayed schedules are a sample beyond them.")
+CLAIMED.update({
+    "C03": ("TLA+ protocol model PingProto (one action per yield-to-yield step of a thread) model-checked by TLC; its schedules replayed on real threads by the step scheduler and compared event-for-event; all recorded traces validated by TLC against ConcContract; sequential histories through LoopContract",
+            "Model checking of every interleaving of the ping protocol for the configured scripts + schedule replay on real eventfds + trace validation.", "4/C03", CONC_NOTE),
+    "C04": ("TLA+ contract ConcContract (order / exactly-once / single Closed / no stranded message / blocking send completes) validated by TLC on traces of real threads driven by the step scheduler (seeded schedules); sequential histories through LoopContract",
+            "Trace validation by TLC of scheduled executions of channel() and sync_channel(0,1,2) with batch limits 1..3 and at the real limit.", "4/C04", CONC_NOTE),
+    "C10": ("TLA+ contract ConcContract (no lost wake, loop-thread-only polls and drops, exactly-once results) validated by TLC on traces of real waker threads against the loop under the step scheduler",
+            "Trace validation by TLC of scheduled executions of the executor with manual futures.", "4/C10", CONC_NOTE),
+    "C11": ("TLA+ contract ConcContract (run() returns after stop+wakeup within one iteration, never without stop; block_on result) validated by TLC on traces with real blocking waits under the step scheduler",
+            "Trace validation by TLC of scheduled executions of run()/block_on() with real epoll waits; a wait that does not return within the watchdog is recorded as stuck.", "4/C11", CONC_NOTE),
+    "C18": ("TLA+ transcription of transient.rs (Transient.tla) model-checked exhaustively by TLC; an edge cover of the reachable graph (every state x call) is replayed on the real TransientSource inside a real loop and the recorded calls are validated by TLC against the same operators",
+            "Exhaustive model checking of the wrapper state machine + one real execution per model transition (MongoDB-style), kernel epoll table as second oracle.", "4/C18",
+            "Trusted: the instrumented child sources (wrapping real Generic / Timer), /proc fdinfo. Protocol scope as documented in transient.rs (see spec/TRANSIENT_FINDINGS.md)."),
+    "C19": ("Implementation-shaped TLA+ model of Signals (each new/add/remove/set/drop is its sequence of sigprocmask/signalfd calls, one per transition; pending queues with coalescing; normal disposition = counting handler) checked exhaustively by TLC; all behaviours of the small configuration plus seeded samples are replayed on the real Signals source in a single-threaded process and the recorded kernel observations are validated by TLC against the same operators",
+            "Exhaustive TLC model checking of mask bookkeeping and delivery for all sequences of <=5 operations over subsets of 3 signals; every 4-operation behaviour over 2 signals is executed on the real crate and must agree with the model on blocked set, signalfd mask, pending sets, callbacks and handler counts after every call.", "4/C19",
+            "Trusted: Linux signal semantics as modelled (standard signals coalesce per queue; unblocking delivers pending instances before sigprocmask returns; signalfd reads dequeue regardless of the blocked set), /proc/self/status and fdinfo as observers, counting handlers standing for the normal disposition. Out of scope: other threads, a second Signals source, syscall failures, real-time signals."),
+})
+
 checks = []
 for pid, (tech, text, ref, note) in CLAIMED.items():
     checks.append({
